@@ -415,7 +415,7 @@ pub fn run(cfg: &RunCfg) -> Report {
     let mut rep = Report::new(
         "C11",
         "exploration",
-        "cases = (prefix history as C04: adds with increasing / tied / arbitrary timestamps, matches, cancels, re-adds, amendments, positive quantities; restore path: from_snapshot, From<&Snapshot>, package, JSON; continuation of 1-8 matches, cancels, amendments and adds). The continuation is applied to the original level, to the level restored from its snapshot and to a fresh level to which the snapshot's listed orders are added in listed order; results are compared op by op (makers, sequence, quantities, returned orders; transaction ids and wall-clock timestamps ignored). restored vs fresh must always agree. original vs restored must agree whenever the original's queue order (read off a drained twin of the prefix) is strictly increasing in timestamp and no resting or re-added id has a stale ticket; differences outside that region are the listed known finding KF-C11-1 (counted). Since round 4: three in ten prefixes contain orders that show nothing, and half of their continuations end by amending all such orders back to a positive display and trading through them; the original's queue at the snapshot is the interpreter's exactly tracked ticket queue (strictness/from_tracked_ticket_queue), and KF-C11-1 applies exactly when the tickets of resting and re-added ids are not the resting orders once each in strictly increasing timestamp order. Since round 6: one case in five is a constructed scene (dormant, replenishing and plain orders with increasing timestamps; small matches ending on fill boundaries; the continuation amends every dormant order back to life and trades one fill at a time; counters continuation/revives_*). Non-trivial = >=2 orders resting at the snapshot and a continuation match that trades without draining the level; distinct = hash of the case.",
+        "cases = (prefix history as C04: adds with increasing / tied / arbitrary timestamps, matches, cancels, re-adds, amendments, positive quantities; restore path: from_snapshot, From<&Snapshot>, package, JSON; continuation of 1-8 matches, cancels, amendments and adds). The continuation is applied to the original level, to the level restored from its snapshot and to a fresh level to which the snapshot's listed orders are added in listed order; results are compared op by op (makers, sequence, quantities, returned orders; transaction ids and wall-clock timestamps ignored). restored vs fresh must always agree. original vs restored must agree whenever the original's queue order (read off a drained twin of the prefix) is strictly increasing in timestamp and no resting or re-added id has a stale ticket; differences outside that region are the listed known finding KF-C11-1 (counted). Since round 4: three in ten prefixes contain orders that show nothing, and half of their continuations end by amending all such orders back to a positive display and trading through them; the original's queue at the snapshot is the interpreter's exactly tracked ticket queue (strictness/from_tracked_ticket_queue), and KF-C11-1 applies exactly when the tickets of resting and re-added ids are not the resting orders once each in strictly increasing timestamp order. Since round 6: one case in five is a constructed scene (dormant, replenishing and plain orders with increasing timestamps; small matches ending on fill boundaries; the continuation amends every dormant order back to life and trades one fill at a time; counters continuation/revives_*); prefixes contain read-only calls (a rendering kept from an earlier call must not be what the restore is made from), scenes contain orders of the kinds a match drops silently, and before anything is traded the restored level must hold exactly the orders resting on the original. Non-trivial = >=2 orders resting at the snapshot and a continuation match that trades without draining the level; distinct = hash of the case.",
     );
     rep.assumptions = vec!["order.price == level price; ids unique among resting orders (DESIGN §8)".into()];
     let known = crate::known::load(&cfg.root);
